@@ -321,6 +321,7 @@ func runC07(c *Ctx, w *World, r *Report) {
 			r.Check(bad == "", "R-GATE", fname+"|decode", w.InstrPos(decode), bad, "proto.Unmarshal(body, msg) dominated by err==nil of header and body reads")
 		}
 		reportSuccessViaDecode(w, r, fn)
+		ReportEOFSource(w, r, "pbcmpl.Unmarshal", isParamStream(fn, 0))
 		// EOF kind: a body read that can report io.EOF after body bytes were consumed must convert it
 		r.Rule("R-EOFKIND", "a body read whose error can be io.EOF although bytes of the frame were already consumed by it or by an earlier body read (io.CopyN/io.Copy/Read, or any read inside a loop) returns that error unconverted only on an edge where err == io.EOF is false or no body byte was read; io.ReadFull called once converts by itself")
 		for i, bc := range bodyCalls {
